@@ -91,6 +91,8 @@ pub struct Stats {
     pub two_handle_states: u64,
     pub full_states: u64,
     pub wall_s: f64,
+    /// a few histories that were actually executed (deepest level first), with the outcome of their last call
+    pub samples: Vec<(Vec<String>, String)>,
 }
 
 impl Stats {
@@ -108,6 +110,9 @@ impl Stats {
         self.two_handle_states += o.two_handle_states;
         self.full_states += o.full_states;
         self.wall_s += o.wall_s;
+        if self.samples.len() < 6 {
+            self.samples.extend(o.samples.iter().take(2).cloned());
+        }
     }
 }
 
@@ -261,7 +266,11 @@ pub fn explore(
         let done = outs.iter().filter(|o| o.is_some()).count();
         let mut next = Vec::new();
         let mut new_states = 0u64;
+        let mut level_sample: Option<(Vec<String>, String)> = None;
         for o in outs.into_iter().flatten() {
+            if level_sample.is_none() && stats.transitions % 7 == 3 {
+                level_sample = Some((hist_ops(prefix, alphabet, &o.node.hist).iter().map(|x| format!("{x:?}")).collect(), o.tag.clone()));
+            }
             stats.transitions += 1;
             *stats.outcomes.entry(o.tag).or_default() += 1;
             if recheck > 0 {
@@ -296,6 +305,10 @@ pub fn explore(
                 }
                 next.push(o.node);
             }
+        }
+        if let Some(ls) = level_sample {
+            stats.samples.insert(0, ls);
+            stats.samples.truncate(3);
         }
         stats.determinism_rechecks += if recheck > 0 { (done as u64 + recheck - 1) / recheck } else { 0 };
         stats.states += new_states;
